@@ -86,7 +86,12 @@ extern "C" fn on_fatal_signal(sig: i32) {
             path = format!("{dir}/{prop}-abort-{d:016x}.trace");
             let _ = std::fs::write(
                 &path,
-                format!("# VIOLATION property=C03 check=abort: process killed by signal {sig} at event {tick}: {}\n{text}", msg.replace('\n', " ")),
+                format!(
+                    "# VIOLATION property=C03 check=abort: process killed by signal {sig} at event {tick}: {}\n# build: features={} family={}\n{text}",
+                    msg.replace('\n', " "),
+                    build_tag(),
+                    cmdsets_gen::FAMILY_SEED
+                ),
             );
         }
     }
@@ -337,6 +342,24 @@ fn judge_and_record(
     }
 }
 
+/// Feature set this binary was built with, in the driver's notation (h = history, a = autocomplete, p = help)
+fn build_tag() -> String {
+    let mut t = String::new();
+    if exec::HAS_HISTORY {
+        t.push('h');
+    }
+    if exec::HAS_AUTOCOMPLETE {
+        t.push('a');
+    }
+    if exec::HAS_HELP {
+        t.push('p');
+    }
+    if t.is_empty() {
+        t.push_str("none");
+    }
+    t
+}
+
 fn profile_id(name: &str) -> u64 {
     prng::fnv1a(name.as_bytes())
 }
@@ -480,10 +503,12 @@ fn cmd_run(a: &Args, sweep: bool) -> i32 {
             let _ = std::fs::create_dir_all(&replay_dir);
             let path = format!("{replay_dir}/{prop}-{}-s{seed}-r{}.trace", mf.check, f.index);
             let header = format!(
-                "# VIOLATION property={prop} check={} at event {}\n# {}\n# found by: seed={seed} run={} {} profiles={} (minimised from {} to {} events)\n",
+                "# VIOLATION property={prop} check={} at event {}\n# {}\n# build: features={} family={}\n# found by: seed={seed} run={} {} profiles={} (minimised from {} to {} events)\n",
                 mf.check,
                 mf.tick,
                 mf.detail.replace('\n', " "),
+                build_tag(),
+                cmdsets_gen::FAMILY_SEED,
                 f.index,
                 f.variant,
                 profiles.join(","),
@@ -696,6 +721,9 @@ fn cmd_replay(a: &Args) -> i32 {
             }
             if res.failures.is_empty() {
                 println!("OK: {} events, no oracle failed", res.ticks);
+            }
+            if a.get("observable").is_some() {
+                println!("OBS {:016x} {}", res.obs_digest, res.used_mask);
             }
             rc
         }
